@@ -22,7 +22,7 @@ EXPLANATION = (
     "history record carries combination, the sort_by value, viability and message)."
 )
 NOT_DECIDED = "agreement of summary contents with transform outputs on data"
-FLOORS = {"R-summary-scope": 3, "R-single-table": 2, "R-history-complete": 6, "R-history-fields": 1}
+FLOORS = {"R-summary-scope": 3, "R-single-table": 2, "R-history-complete": 6, "R-history-fields": 2}
 
 
 def _emits(node, sink="summaries"):
@@ -137,6 +137,23 @@ def rule_history_fields(ctx):
         keys = {(k.value if isinstance(k, ast.Constant) else unparse(k)): unparse(v) for k, v in zip(d.keys, d.values)}
         ok = {"combination", "self.sort_by", "viability", "viability_message"} <= set(keys) and keys["self.sort_by"] == "asso[self.sort_by]" and keys["viability"] == "viab" and keys["viability_message"] == "msg"
     ctx.ob(R, construct(fh, "record = {combination, <sort_by>: its association value, viability, viability_message, ...}"), ok, loc(fh, dicts[0] if dicts else None))
+    # raw values of a tested group: carving-level modality -> members in the labels order -> raw values
+    ok = False
+    if len(dicts) == 1:
+        d = dicts[0]
+        comb = [v for k, v in zip(d.keys, d.values) if isinstance(k, ast.Constant) and k.value == "combination"]
+        if comb and isinstance(comb[0], ast.ListComp) and isinstance(comb[0].elt, ast.ListComp):
+            inner = comb[0].elt
+            gens = inner.generators
+            if len(gens) == 3:
+                m, g, v = [unparse(x.target) for x in gens]
+                ok = (unparse(gens[0].iter) in ("asso['index_to_groupby'].keys()", "asso['index_to_groupby']")
+                      and unparse(gens[1].iter) == f"order.get({m}, {m})"
+                      and unparse(gens[2].iter) == f"self.values_orders[feature].get({g}, {g})"
+                      and unparse(inner.elt) == v
+                      and [unparse(c).replace(" ", "") for c in gens[2].ifs + gens[1].ifs + gens[0].ifs] == [f"asso['index_to_groupby'][{m}]==final_group"])
+    ctx.ob(R, construct(fh, "a historized group lists the raw values of its modalities: labels-level members first, then their raw values"), ok, loc(fh),
+           "" if ok else "expanding through values_orders before the carving order loses the raw values of modalities merged at an earlier step")
 
 
 def rule_viable_is_fitted(ctx):
@@ -185,6 +202,7 @@ MUTANTS = [
     M("not-checked tail includes the accepted combination", [(F_BC, "associations_not_checked = associations_xagg[n_combination + 1 :]", "associations_not_checked = associations_xagg[n_combination:]")], "R-history-complete", "Not checked"),
     M("fitted grouping taken from the best-ranked instead of the accepted combination", [(F_BC, "            order = order_apply_combination(order, best_association[\"combination\"])", "            order = order_apply_combination(order, associations_xagg[0][\"combination\"])")], "R-history-complete", "accepted"),
     M("raw distribution not historized", [(F_BC, "            self._historize_viability_test(feature, raw_association, order)\n", "")], "R-history-complete", "raw distribution"),
+    M("history expands raw values before the carving order", [(F_BC, "                        for group_modality in order.get(modality, modality)\n                        for value in self.values_orders[feature].get(group_modality, group_modality)\n", "                        for group_modality in self.values_orders[feature].get(modality, modality)\n                        for value in order.get(group_modality, group_modality)\n")], "R-history-fields", "raw values"),
     M("history stores the best value instead of the combination's", [(F_BC, "                self.sort_by: asso[self.sort_by],", "                self.sort_by: association[self.sort_by],")], "R-history-fields"),
 ]
 BENIGN = [
